@@ -30,6 +30,17 @@ claimed.update({
    note=TRUST, tech="deterministic simulation with fault injection: failpoint at every statement (injected panics), NaN faults; executable reference model of the context latch"),
 })
 
+claimed.update({
+ "C12": dict(cat="exploration", ref="DESIGN.md §4 C12",
+   text="Stream and corruption surface of the parsers: tokens (well-formed literals in all bases, mutated literals, arbitrary bytes) go through every entry point (Parse, SetString, ParseDecimal, UnmarshalText, UnmarshalJSON, fmt.Fscan/Fscanf/Sscan via Scan) over simulated io.Reader / io.RuneScanner streams with every chunking and with a read fault (EOF, error, io.ErrUnexpectedEOF, (1,err), zero-length read) at every offset of the token. Oracles: totality (no panic, nil on rejection), grammar == math/big Float.Parse, exact value rounded once by an independent rounder (base 10; <= 1 ulp otherwise), delivery independence, and under faults 'fails or returns exactly the value of the delivered bytes - never wrong data'.",
+   note="Trusted: math/big's parser as grammar reference; the harness' own lexer and digit-string rounder (~250 lines, cross-checked against math/big on every in-range string); fmt's scanning machinery is real. Stubbed: io.Reader/io.RuneScanner. Sampling over tokens; fault offsets are enumerated per token.",
+   tech="deterministic simulation of stream I/O with fault injection (EOF/error/short/zero reads at every offset, all chunkings) + reference model (math/big grammar, independent exact rounder)"),
+ "C17": dict(cat="fault_enumeration", ref="DESIGN.md §4 C17",
+   text="Encoder -> simulated byte transport -> decoder. Fault-free: exact round trip of value, sign, precision, mode, accuracy (zero-value receiver), precision/mode kept and value rounded once (preset receivers), through a real gob stream. Faults: systematic enumeration of every single corruption class over every byte/length of real encodings (truncation at every length, bit flips, byte sets, out-of-range mantissa words, all header/version byte values, precision field, extension, drop, duplication), seeded multi-fault sequences, and corrupted/reordered gob streams read through a faulty io.Reader. Oracle: error or canonical-and-usable value, never a panic, receiver canonical in every case.",
+   note="Trusted: the canonical-form validator (public API only) and encoding/gob (real). Sampling over transmitted values; per value the named single-fault sub-spaces are enumerated completely. No claim about which value a corrupted payload decodes to.",
+   tech="deterministic fault enumeration over a simulated byte transport (torn/flipped/extended/dropped/duplicated payloads, faulty io.Reader under a real gob.Decoder)"),
+})
+
 pending = {}  # filled below while checks are under construction
 
 na = {
